@@ -16,7 +16,7 @@ RULE = ("a case is one field spec (family x boundary-valued constructor options;
         "and to_python(to_basic(w)) == w with w accepted again; candidates whose status the documentation leaves open "
         "are skipped and counted; non-trivial = at least one accepted and one rejected candidate judged; distinct = "
         "distinct (spec, candidates)")
-REQUIRED = ("sibling_proxy_arguments_judged", "judged_accept", "judged_reject", "idempotence_checks", "encode_decode_checks", "determinism_checks")
+REQUIRED = ("stored_values_revalidated_after_the_world_changed", "sibling_proxy_arguments_judged", "judged_accept", "judged_reject", "idempotence_checks", "encode_decode_checks", "determinism_checks")
 ASSUMPTIONS = ["the reference model (vf/model.py) states the declared constraints of each field family as documented",
                "exception types of rejections are not judged here (C15)"]
 EXCLUDED = ["number strings with underscores, non-ASCII digits or > 400 characters", "NaN against bounds",
@@ -219,8 +219,52 @@ def run(case, ctx, res):
             continue
         if not _contains_digest(pb) and not eq_disk(f, want, plain(again)):
             res.viol("M-encode", fam + ":decoded-revalidates-differently" + tagtxt, "%r -> %r" % (back, again))
+    if fam == "file" and f.get("params", {}).get("exists") in (True, "file", "dir", False):
+        _stale_state(cc, ctx, res, f["params"]["exists"])
     if acc and rej:
         res.nontrivial(case["field"], case["values"])
+
+
+def _stale_state(cc, ctx, res, kind):
+    """Validation is a function of the value AND the world at the time of the call: a stored value that was fine when it
+    was assigned is rejected by a later validation once the file system no longer agrees."""
+    import shutil
+
+    sch = cc.Schema()
+    sch.p = cc.FilenameField(exists=kind)
+    sch.other = cc.IntField(default=1)
+    cfg = sch()
+    target = os.path.join(ctx.dir, "stale-target")
+
+    def put(present):
+        if os.path.isdir(target):
+            shutil.rmtree(target)
+        elif os.path.exists(target):
+            os.unlink(target)
+        if present == "dir":
+            os.mkdir(target)
+        elif present:
+            with open(target, "w") as fp:
+                fp.write("x")
+
+    put("dir" if kind == "dir" else (False if kind is False else True))
+    try:
+        cfg.p = target
+    except Exception as exc:
+        res.viol("M-exact", "file:rejects-valid:stale-state-setup", "exists=%r rejects %s although the file system agrees: %s" % (kind, target, exc))
+        return
+    stored = cfg.p
+    put(True if kind is False else False)  # the world changes: created for exists=False, removed otherwise
+    res.count("stored_values_revalidated_after_the_world_changed")
+    for how, fn in (("Config.validate()", lambda: cfg.validate()), ("field.validate(cfg, stored value)", lambda: sch.p.validate(cfg, stored)),
+                    ("re-assigning the stored value", lambda: setattr(cfg, "p", stored))):
+        try:
+            fn()
+        except Exception:
+            continue
+        res.viol("M-exact", "file:accepts-invalid:stored-value-after-change", "exists=%r: %s accepted the stored path after the file system "
+                 "changed (it %s)" % (kind, how, "now exists" if kind is False else "is gone"))
+        return
 
 
 def _idem_feature(fam, what, tg):
